@@ -201,7 +201,7 @@ class MidiTrack(object):
 
     def select_bank(self, channel, bank):
         """Return the MIDI event for a select bank controller event."""
-        return self.controller_event(BANK_SELECT, channel, bank)
+        return self.controller_event(channel, BANK_SELECT, bank)
 
     def program_change_event(self, channel, instr):
         """Return the bytes for a program change controller event."""
